@@ -625,7 +625,12 @@ def gen_e2e(rng, tier):
             if d:
                 script[str(who)] = d
     nfollow = 0
-    run = E2ERun(seed, deleg, script)
+    slow = eagerr = None
+    if rng.random() < 0.35:
+        slow = [rng.choice([0.0, 0.005, 0.03, 0.2]), rng.choice([0.005, 0.03, 0.2])]
+        rng.shuffle(slow)
+        eagerr = [rng.random() < 0.6, rng.random() < 0.6]
+    run = E2ERun(seed, deleg, script, slow, eagerr)
     try:
         for _ in range(rng.randrange(40, 260)):
             cand = []
@@ -650,7 +655,7 @@ def gen_e2e(rng, tier):
                 if c.eq._calls:
                     cand.append((1.0, ["turn", who]))
                 if not c.delegated:
-                    cand.append((0.3, ["api", who, "get_message"]))
+                    cand.append((0.9 if slow else 0.3, ["api", who, "get_message"]))   # pipelined reads
                 if with_close and not run.any_close:
                     parked = bool(_keys(getattr(c.boss, "_rx_phases", None)))
                     cand.append((0.6 if parked else 0.03, ["api", who, "close"]))
@@ -691,7 +696,25 @@ def gen_e2e(rng, tier):
     case = dict(kind="e2e", seed=seed, deleg=deleg, ops=ops)
     if script:
         case["script"] = script
+    if slow:
+        case["slow"] = slow
+        case["eager"] = eagerr
     return case
+
+
+def slow_case(nmsg, nget, slow, eager, deleg0=False, order=None):
+    """B (Deferred API) keeps `nget` get_message() calls outstanding, its callbacks take `slow` seconds and (eager)
+    ask for the next message from inside the callback; A's `nmsg` messages all arrive before B's next eventual turn"""
+    ops = [["open", 0], ["open", 1], ["api", 0, "set_code", CODE], ["api", 1, "set_code", CODE], ["settle"]]
+    ops += [["api", 1, "get_message"]] * nget
+    for i in range(nmsg):
+        ops.append(["api", 0, "send", "%02x%02x" % (0xd0 + i, i)])
+    ops += [["c2s", 0]] * nmsg
+    if order:
+        ops += [["swapmsg", 1, i, j] for i, j in perm_swaps(order)]
+    ops += [["s2c", 1]] * nmsg
+    ops += [["turn", 1]] * 3 + [["settle"]]
+    return dict(kind="e2e", seed=17, deleg=[deleg0, False], ops=ops, slow=[0.0, slow], eager=[False, eager])
 
 
 def reent_case(ev, deleg, nacts=1, follow=True, closing=False):
@@ -730,6 +753,46 @@ def reent_case(ev, deleg, nacts=1, follow=True, closing=False):
     finally:
         run.close()
     return dict(kind="e2e", seed=21, deleg=deleg, ops=ops, script=script, reent=True)
+
+
+def early_case(order, deleg, nmsg=2):
+    """A's numbered phases overtake A's `version` on the way to B: B stops reading once it has A's PAKE, A finishes
+    the handshake and sends, then B is handed A's frames in `order` (phase names) in one go, before any eventual turn"""
+    run = E2ERun(23, deleg)
+    ops = []
+
+    def step(op):
+        run.do(op)
+        ops.append(op)
+    try:
+        for op in [["open", 0], ["open", 1], ["api", 0, "set_code", CODE], ["api", 1, "set_code", CODE]]:
+            step(op)
+        for i in range(nmsg):
+            step(["api", 0, "send", "%02x%02x" % (0xb0 + i, i)])
+        for _ in range(400):
+            progressed = False
+            for who in (0, 1):
+                c = run.cl[who]
+                hold = who == 1 and automat_state(c.boss._O) == "S1_yes_pake"
+                if c.conn is not None and c.conn.c2s:
+                    step(["c2s", who]); progressed = True
+                elif c.conn is not None and c.conn.s2c and not hold:
+                    step(["s2c", who]); progressed = True
+                elif c.eq._calls and not hold:
+                    step(["turn", who]); progressed = True
+            if not progressed:
+                break
+        step(["msgorder", 1, list(order)])
+        if not deleg[1]:
+            for _ in range(nmsg):
+                step(["api", 1, "get_message"])
+        n = len(run.cl[1].conn.s2c) if run.cl[1].conn else 0
+        for _ in range(n):
+            step(["s2c", 1])
+        step(["settle"])
+    finally:
+        run.close()
+    return dict(kind="e2e", seed=23, deleg=deleg, ops=ops, early=True)
 
 
 def perm_swaps(perm):
@@ -918,13 +981,15 @@ class ScriptDelegate:
 
         def cb(*a):
             r = f(*a)
+            if self._run.slow[self._who]:
+                self._run.W.clock.rightNow += self._run.slow[self._who]
             self._run.react(self._who, ev)
             return r
         return cb
 
 
 class E2ERun:
-    def __init__(self, seed, deleg, script=None):
+    def __init__(self, seed, deleg, script=None, slow=None, eager=None):
         self.W = World(seed=seed)
         self.W.__enter__()
         W = self.W
@@ -933,6 +998,15 @@ class E2ERun:
         # what the applications do from inside their callbacks: script[str(who)][event] = [[action, …] per occurrence]
         self.script = {int(k): {e: [list(x) for x in v] for e, v in d.items()} for k, d in (script or {}).items()}
         self.reacted = {0: 0, 1: 0}        # number of scripted reactions performed so far, per client
+        # applications whose callbacks take time (the clock moves while one runs) and which ask for the next message
+        # from inside a callback (Deferred API: the World's Client does both; Delegated API: ScriptDelegate bumps)
+        self.slow = list(slow or [0.0, 0.0])
+        for who in (0, 1):
+            c = self.cl[who]
+            c.slow = self.slow[who]
+            c.read_in_callback = bool((eager or [False, False])[who])
+            if c.delegated and self.slow[who] and who not in self.script:
+                c.w._delegate = ScriptDelegate(c.w._delegate, self, who)
         for who in (0, 1):
             c = self.cl[who]
             if who not in self.script:
@@ -1005,6 +1079,26 @@ class E2ERun:
                 return False
             W.do(["api", op[1], "set_code", code[0]])
             return True
+        if k == "msgorder":
+            # the peer's queued `message` frames with the listed phases are handed over in the listed order
+            c = cl[op[1]]
+            if c.conn is None:
+                return True
+            from wormhole.util import bytes_to_dict
+            q = c.conn.s2c
+            pos = {}
+            for i, fr in enumerate(q):
+                m = bytes_to_dict(fr)
+                if m.get("type") == "message" and m.get("side") != c.side and m.get("phase") in op[2]:
+                    pos.setdefault(m["phase"], i)
+            if sorted(pos) != sorted(op[2]):
+                return True
+            slots = sorted(pos.values())
+            frames = [q[pos[ph]] for ph in op[2]]
+            for i, fr in zip(slots, frames):
+                q[i] = fr
+            self.tags.add("e2e:msgorder")
+            return True
         if k == "permtail":
             idx = W.msg_frames(op[1])
             q = cl[op[1]].conn.s2c if cl[op[1]].conn else None
@@ -1061,7 +1155,7 @@ class E2ERun:
 
 def run_e2e(case):
     lines, exp = [], []
-    run = E2ERun(case["seed"], case["deleg"], case.get("script"))
+    run = E2ERun(case["seed"], case["deleg"], case.get("script"), case.get("slow"), case.get("eager"))
     try:
         W, cl, taps, sent, viol, tags, events = run.W, run.cl, run.taps, run.sent, run.viol, run.tags, run.events
         do, check, ngets = run.do, run.check, run.ngets
@@ -1152,6 +1246,8 @@ def run_e2e(case):
         for x in (0, 1):
             if any(g[0] == "drx" and g[8] for g in taps[x].got_phase) and any(g[0] == "rx" for g in taps[x].got_phase):
                 tags.add("e2e:dilate-parked-while-phases-arrive")
+        if any(case.get("slow") or []):
+            tags.add("e2e:slow-app" + (":eager" if any(case.get("eager") or []) else ""))
         tags.add("e2e:api=" + ("deleg" if case["deleg"][0] else "defer") + "/" + ("deleg" if case["deleg"][1] else "defer"))
         nrx = {}
         for ev in events:
@@ -1180,6 +1276,14 @@ def run_e2e(case):
 REENT_EVENTS = ["welcome", "code", "key", "verifier", "versions", "message"]
 
 E2E_CORPUS = [
+    # the peer's numbered phases overtake its `version`
+    early_case(["0", "version", "1"], [False, False]),
+    early_case(["1", "0", "version"], [True, True]),
+    # slow applications with pipelined reads (the clock moves inside an eventual turn)
+    slow_case(3, 2, 0.03, True),
+    slow_case(5, 3, 0.2, True, order=[1, 0, 2, 4, 3]),
+    slow_case(4, 2, 0.005, True),
+    slow_case(4, 4, 0.03, False),
     # re-entrant applications: send_message() from inside a callback, then again right after it (both API styles)
     reent_case("code", [True, False]),
     reent_case("verifier", [True, True], nacts=2),
@@ -1231,6 +1335,24 @@ def cases(rng, tier):
         out.append(dict(kind="comp", seed=rng.randrange(10**6), ops=gen_comp(rng, adversarial=(i % 3 == 2))))
     for i in range(150 * m):
         out.append(gen_e2e(rng, tier))
+    orders = list(itertools.permutations(["version", "0", "1", "2"]))
+    if tier == "thorough":
+        for o in orders:
+            for d1 in (False, True):
+                out.append(early_case(list(o), [False, d1], nmsg=3))
+    else:
+        for _ in range(4):
+            out.append(early_case(list(rng.choice(orders)), [rng.random() < 0.5, rng.random() < 0.5], nmsg=3))
+    if tier == "thorough":
+        for nmsg in (3, 4, 6):
+            for nget in (1, 2, 3):
+                for sl in (0.005, 0.03, 0.2):
+                    for eg in (False, True):
+                        out.append(slow_case(nmsg, nget, sl, eg))
+    else:
+        for _ in range(6):
+            out.append(slow_case(rng.choice([3, 4, 6]), rng.choice([1, 2, 3]), rng.choice([0.005, 0.03, 0.2]),
+                                 rng.random() < 0.7, deleg0=rng.random() < 0.5))
     if tier == "thorough":
         for ev in REENT_EVENTS:
             for d0 in (True, False):
@@ -1289,6 +1411,14 @@ def search(rng, seconds, seeds):
         if c.get("kind") == "e2e":
             yield c, run_case(c)
     for c in E2E_CORPUS:
+        yield c, run_case(c)
+    for nmsg in (3, 5):
+        for nget in (2, 3):
+            for sl in (0.03, 0.2):
+                c = slow_case(nmsg, nget, sl, True)
+                yield c, run_case(c)
+    for o in itertools.permutations(["version", "0", "1", "2"]):
+        c = early_case(list(o), [False, False], nmsg=3)
         yield c, run_case(c)
     for ev in REENT_EVENTS:
         for d0 in (True, False):
